@@ -8,7 +8,7 @@
    of its payload's kind does not contain the payload id."""
 import re
 from registry import RuleResult
-from heval import Evaluator, Policy, EvalError, sym, show
+from heval import Evaluator, Policy, EvalError, sym, show, local_policy
 from r_edges import used_kinds
 
 RUN = 'passes::gc::run'
@@ -32,93 +32,118 @@ def coll_kinds(F):
 def run(ctx):
     F = ctx.F
     res = RuleResult('R-SWEEP', 'gc::run sweeps every tracked kind against its used set; imports by the kind they import')
-    res.floor = 12
+    res.floor = 11
     kinds = used_kinds(F)
     if not kinds or RUN not in F.hir:
         res.error('anchor lost: passes::gc::run / Used')
         return res
     ck = coll_kinds(F)
-    pol = Policy(effects=lambda p: not p.startswith('std::') and not p.startswith('log::'), inline=lambda p: False)
+    kind_coll = {}
+    for coll, kind in ck.items():
+        kind_coll.setdefault(kind, coll)
+    # helpers of gc.rs are looked through; what the pass does to the module is observed as delete events,
+    # what it knows as `contains` conditions on the fields of the Used set
+    pol = local_policy(F, RUN, events=[r'::delete$'], max_depth=10)
     try:
-        ws = Evaluator(F, pol).run_fn(RUN, [sym('m')])
+        ws = Evaluator(F, pol, max_worlds=20000).run_fn(RUN, [sym('m')])
     except EvalError as e:
         res.error('gc::run not analysable: %s' % e)
         return res
-    rx = re.compile(r'^elem\(unused\(new\(m\)\.(\w+), seq\[id\(elem\(iter\(m\.(\w+)\)\)\) \| iter\(m\.(\w+)\)\]\)\)$')
+    ws = [w for w in ws if w.outcome in ('return', 'pruned')]
+    used_term = None
+
+    def conds(w):
+        """{(used field, id term shown): truth} for every `used.<field>.contains(id)` this world assumed"""
+        out = {}
+        for k, v in w.assumptions:
+            if isinstance(k, tuple) and k and k[0] == 'atom':
+                t = k[1]
+                neg = False
+                while isinstance(t, tuple) and t[0] == 'un' and t[1] == 'Not':
+                    t, neg = t[2], not neg
+                if isinstance(t, tuple) and t[0] == 'call' and t[1].endswith('::contains') and len(t[2]) == 2:
+                    recv = t[2][0]
+                    if isinstance(recv, tuple) and recv[0] == 'field' and isinstance(recv[1], tuple) and recv[1][0] == 'call' \
+                            and recv[1][1].endswith('Used::new'):
+                        out[(recv[2], show(t[2][1]))] = (not v) if neg else v
+        return out
+
+    def deletes(w):
+        return [(show(e['args'][0]).split('.')[-1], show(e['args'][1])) for e in w.trace
+                if e['kind'] == 'call' and e['callee'].endswith('::delete')]
+    n_del = 0
+    stray = set()
     for kind, ufield in sorted(kinds.items()):
         short = kind.split('::')[-1]
-        n_ok = 0
+        coll = kind_coll.get(kind)
+        x = 'id(elem(iter(m.%s)))' % coll
+        swept = kept = 0
         why = None
         for w in ws:
-            found = False
-            for e in w.trace:
-                if e['kind'] == 'call' and e['callee'].endswith('::delete') and 'ModuleImports' not in e['callee']:
-                    m = rx.match(show(e['args'][1]))
-                    if not m:
-                        continue
-                    uf, c1, c2 = m.groups()
-                    if uf != ufield:
-                        continue
-                    coll = show(e['args'][0]).split('.')[-1]
-                    if c1 == c2 == coll and ck.get(coll) == kind:
-                        found = True
+            c = conds(w)
+            ds = deletes(w)
+            has = (coll, x) in ds
+            if (ufield, x) in c:
+                if c[(ufield, x)] is False:
+                    if has:
+                        swept += 1
+                    elif w.outcome == 'return':
+                        why = 'an item of m.%s that is not in used.%s survives' % (coll, ufield)
+                else:
+                    if has:
+                        why = 'an item of m.%s that is in used.%s is deleted' % (coll, ufield)
                     else:
-                        why = 'used.%s is swept against m.%s / deletes from m.%s' % (uf, c1, coll)
-            if found:
-                n_ok += 1
-        if n_ok == len(ws):
-            res.ok('sweep/' + short, {'kind': short, 'used_field': ufield, 'worlds': n_ok})
+                        kept += 1
+            elif has:
+                other = [f for (f, xx), v in c.items() if xx == x]
+                why = 'items of m.%s are deleted %s' % (coll, ('by looking at used.%s' % other[0]) if other else 'without consulting used.' + ufield)
+            elif w.outcome == 'return':
+                # the pass completed without ever asking whether this kind's items are used: the sweep is conditional
+                why = 'the sweep of m.%s is skipped on some path (used.%s never consulted)' % (coll, ufield)
+        if why is None and swept and kept:
+            res.ok('sweep/' + short, {'kind': short, 'used_field': ufield, 'deleted_iff_absent': True, 'worlds': swept + kept})
         else:
-            res.bad('sweep/' + short, 'gc::run does not sweep %s items against used.%s in every case (%s)'
-                    % (short, ufield, why or '%d of %d worlds' % (n_ok, len(ws))))
-    # helper
-    try:
-        uw = Evaluator(F, Policy(effects=[r'Vec::push$', r'HashSet::contains$'])).run_fn('passes::gc::unused', [sym('used'), sym('all')])
-        good = True
-        saw_push = False
-        for w in uw:
-            atoms = {show(k[1]): v for k, v in w.assumptions if isinstance(k, tuple) and k[0] == 'atom'}
-            cont = [v for k, v in atoms.items() if k.startswith('contains(used')]
-            pushes = [e for e in w.trace if e['kind'] == 'call' and e['callee'].endswith('Vec::push')]
-            # the evaluator models `unused.push` on the local list directly; read the returned value
-            ret = w.value
-            n = 0
-            if isinstance(ret, tuple) and ret[0] in ('seq', 'list'):
-                n = 1 if ret[0] == 'seq' else len(ret[1])
-            has = bool(pushes) or n > 0
-            if cont:
-                if has == cont[0]:
-                    good = False
-                if has:
-                    saw_push = True
-        if good and saw_push:
-            res.ok('sweep/helper-unused', {'unused': 'returns the ids for which used.contains(id) is false'})
-        else:
-            res.bad('sweep/helper-unused', '`unused` does not return exactly the ids missing from the used set')
-    except (EvalError, KeyError) as e:
-        res.error('gc::unused not analysable: %s' % e)
+            res.bad('sweep/' + short, 'gc::run does not sweep %s items against used.%s: %s'
+                    % (short, ufield, why or 'no path deletes id(elem(m.%s)) exactly when used.%s lacks it (%d/%d)' % (coll, ufield, swept, kept)))
+    # nothing else is deleted
+    legit = set((kind_coll.get(k), 'id(elem(iter(m.%s)))' % kind_coll.get(k)) for k in kinds) | {('imports', 'id(elem(iter(m.imports)))')}
+    for w in ws:
+        for d in deletes(w):
+            if d not in legit:
+                stray.add(d)
+    if stray:
+        res.bad('sweep/stray-delete', 'gc::run also deletes %s' % sorted(stray)[:3])
+    else:
+        res.ok('sweep/only-the-complement', {'delete_targets': len(legit)})
     # imports
     ik = F.adt('module::imports::ImportKind')
+    ix = 'id(elem(iter(m.imports)))'
     for var in ik['variants']:
         vn = var['name']
         m = re.search(r'id_arena::Id<([^>]+)>', var['fields'][0]['ty'])
         kind = m.group(1) if m else None
         uf = kinds.get(kind)
+        payload = 'elem(iter(m.imports)).kind.%s.0' % vn
         seen = {True: None, False: None}
         wrong = None
         for w in ws:
             v = [vv[2] for k, vv in w.assumptions if isinstance(vv, tuple) and vv and vv[0] == 'ctor' and vv[1] == 'module::imports::ImportKind']
             if v != [vn]:
                 continue
-            for k, val in w.assumptions:
-                if isinstance(k, tuple) and k[0] == 'atom' and show(k[1]).startswith('contains(new(m).'):
-                    field = show(k[1]).split('contains(new(m).')[1].split(',')[0]
-                    if field != uf:
-                        wrong = field
-                    deleted = any(e['kind'] == 'call' and e['callee'].endswith('ModuleImports::delete') for e in w.trace)
-                    seen[val] = deleted
+            c = conds(w)
+            mine = [(f, val) for (f, xx), val in c.items() if xx == payload]
+            if not mine:
+                if ('imports', ix) in deletes(w):
+                    wrong = 'nothing'
+                continue
+            for f, val in mine:
+                if f != uf:
+                    wrong = 'used.' + f
+                deleted = ('imports', ix) in deletes(w)
+                if seen[val] is None or w.outcome == 'return':
+                    seen[val] = deleted if seen[val] in (None, deleted) else 'both'
         if wrong:
-            res.bad('imports/' + vn, 'an imported %s is swept against used.%s instead of used.%s' % (vn, wrong, uf))
+            res.bad('imports/' + vn, 'an imported %s is swept against %s instead of used.%s' % (vn, wrong, uf))
         elif seen[True] is False and seen[False] is True:
             res.ok('imports/' + vn, {'import_kind': vn, 'deleted_iff_not_in': 'used.' + str(uf)})
         else:
